@@ -412,5 +412,85 @@ theorem readAll_truncSegs_one_extra (ps pps : Nat) (crc : Crc) (h8 : 8 ≤ ps) (
     RState.init n z hn
   rwa [hr.rloop_eq] at h
 
+/-! ### One damaged byte inside a checksummed payload -/
+
+theorem be32_inj (a b : UInt32) (h : be32 a = be32 b) : a = b := by
+  simp only [be32, List.cons.injEq, and_true] at h
+  obtain ⟨h3, h2, h1, h0⟩ := h
+  have e3 := congrArg UInt8.toNat h3
+  have e2 := congrArg UInt8.toNat h2
+  have e1 := congrArg UInt8.toNat h1
+  have e0 := congrArg UInt8.toNat h0
+  simp [UInt32.toNat_toUInt8, UInt32.toNat_shiftRight, Nat.shiftRight_eq_div_pow] at e3 e2 e1 e0
+  apply UInt32.toNat_inj.mp
+  have ha := a.toNat_lt
+  have hb := b.toNat_lt
+  omega
+
+/-- A fragment whose payload `d` was replaced by `d'` on disk; the header (type, length, checksum of the
+    original payload) is intact. -/
+def damagedFrame (crc : Crc) (typ : UInt8) (d d' : Bytes) : Bytes :=
+  typ :: (be16 d.length ++ be32 (crc d) ++ d')
+
+/-- The reader stops at such a fragment with a checksum error as soon as the checksums differ. -/
+theorem rstep_damaged (ps : Nat) (crc : Crc) (st : RState) (typ : UInt8) (d d' rest : Bytes)
+    (hty : DataTyp typ) (hlen : d.length ≤ ps - 7) (h16 : d.length < 65536)
+    (hl : d'.length = d.length) (hne : crc d' ≠ crc d) :
+    rstep ps crc st (damagedFrame crc typ d d' ++ rest) = .done (.err .crc (st.total + 7 + d.length)) := by
+  have hmask : typ &&& recTypeMask = typ := by
+    rcases hty with h | h | h | h <;> subst h <;> decide
+  have hne0 : typ ≠ recPageTerm := by
+    rcases hty with h | h | h | h <;> subst h <;> decide
+  have hrd := rd16_be16 d.length h16
+  have hcrc : be32 (crc d') ≠ be32 (crc d) := fun h => hne (be32_inj _ _ h)
+  simp only [damagedFrame, be16, be32, List.cons_append, List.nil_append, rstep, hmask, hne0, if_false]
+  simp only [hrd, hdrSize, List.length_cons, List.length_append]
+  have h1 : ¬ (d'.length + rest.length + 1 + 1 + 1 + 1 + 1 + 1 = 0) := by omega
+  have h2 : ¬ (d'.length + rest.length + 1 + 1 + 1 + 1 + 1 + 1 < 6) := by omega
+  have h3 : ¬ (d.length > ps - 7) := by omega
+  have h4 : ¬ (d.length > 0 ∧ d'.length + rest.length = 0) := by omega
+  have h5 : ¬ (d'.length + rest.length < d.length) := by omega
+  have ht : List.take d.length (d' ++ rest) = d' := by rw [← hl]; exact List.take_left' rfl
+  simp only [be32] at hcrc
+  simp only [h1, h2, h3, h4, h5, if_false, ht, ne_eq, hcrc, not_false_eq_true, if_true]
+
+/-- `d'` is `d` with exactly one byte changed. -/
+def OneByteDiff (d d' : Bytes) : Prop :=
+  d'.length = d.length ∧ ∃ i, i < d.length ∧ d[i]? ≠ d'[i]? ∧ ∀ j, j ≠ i → d[j]? = d'[j]?
+
+/-- Explicit hypothesis on the checksum (true of CRC-32C for payloads up to far beyond a page; NOT proved
+    here): one damaged byte changes it. -/
+def CrcDetects1 (crc : Crc) : Prop := ∀ d d', OneByteDiff d d' → crc d' ≠ crc d
+
+/-- **Payload damage.** Let the undamaged read stand, after the bytes `A`, in state `st` having returned
+    `out` (`hA`: whatever follows `A`), in front of a fragment of type `typ` with payload `d`.  If one
+    byte of the payload is damaged on disk (header intact), the read returns exactly `out` — the records
+    before the damaged fragment — and stops with a checksum error at the end of that fragment; nothing
+    after it is returned, and `out` is a prefix of what the undamaged log returns. -/
+theorem payload_damage_prefix (ps : Nat) (crc : Crc) (hdet : CrcDetects1 crc)
+    (A B d d' : Bytes) (typ : UInt8) (st : RState) (out : List Bytes)
+    (hA : ∀ X, rloop ps crc RState.init (A ++ X) = prep out (rloop ps crc st X))
+    (hty : DataTyp typ) (hlen : d.length ≤ ps - 7) (h16 : d.length < 65536) (hd : OneByteDiff d d') :
+    rloop ps crc RState.init (A ++ (damagedFrame crc typ d d' ++ B)) =
+        (out, .err .crc (st.total + 7 + d.length)) ∧
+      out <+: (rloop ps crc RState.init (A ++ (frame crc typ d ++ B))).1 := by
+  constructor
+  · rw [hA, rloop_done (rstep_damaged ps crc st typ d d' B hty hlen h16 hd.1 (hdet d d' hd))]
+    simp [prep]
+  · rw [hA]; simp [prep]
+
+/-- **Payload damage behind whole records.**  `A` = the bytes of any whole records `out` as the writer laid
+    them out (C13's `Reads`, the invariant of every log prefix), followed by a fragment with one damaged
+    payload byte: exactly `out` is returned, then a checksum error at the end of that fragment. -/
+theorem payload_damage_after_records (ps : Nat) (crc : Crc) (hdet : CrcDetects1 crc)
+    (A B d d' : Bytes) (typ : UInt8) (a : Nat) (out : List Bytes) (hA : Reads ps crc 0 A a out)
+    (hty : DataTyp typ) (hlen : d.length ≤ ps - 7) (h16 : d.length < 65536) (hd : OneByteDiff d d') :
+    rloop ps crc RState.init (A ++ (damagedFrame crc typ d d' ++ B)) =
+      (out, .err .crc (A.length + 7 + d.length)) := by
+  obtain ⟨ty', _, _, e⟩ := hA 0 0 (damagedFrame crc typ d d' ++ B) (Nat.zero_mod _) nonTorn_zero
+  rw [RState.init, e,
+    rloop_done (rstep_damaged ps crc ⟨0 + A.length, 0, [], ty'⟩ typ d d' B hty hlen h16 hd.1 (hdet d d' hd))]
+  simp [prep]
+
 
 end Prom.Wal
